@@ -29,7 +29,8 @@ if not cps or not tests:
     json.dump(meta, open(os.path.join(dst, "meta.json"), "w"), indent=1)
     sys.exit(1)
 cp_cmds = [c.replace("MUTATION/%s/" % k, src + "/") for c in cps]
-test_cmd = tests[0].strip().rstrip("`").strip()
+with_run = [t for t in tests if "-run" in t]
+test_cmd = (with_run or tests)[0].strip().rstrip("`").strip()
 if "-timeout" not in test_cmd:
     test_cmd = test_cmd.replace("go test", "go test -timeout 20m", 1)
 sh("git -C /repo worktree remove --force %s" % wt)
